@@ -115,7 +115,7 @@ def plan(rng, idx, tier):
         'options': opts, 'format2': {'indent': opts2['indent'], 'compact': opts2['compact']},
         'style': {'nl': srng.chance(0.5), 'indent': srng.pick([0, 2, 3]),
                   'sep': srng.weighted([('blank', 4), ('newline', 3), ('space', 2)]),
-                  'final_newline': srng.chance(0.8), 'meta_one_line': srng.chance(0.1)},
+                  'final_newline': srng.chance(0.8), 'meta_one_line': srng.chance(0.1), 'meta_gap': rng.sub('gap').chance(0.12), 'inner_blank': rng.sub('gap2').chance(0.12)},
         'newline': srng.weighted([('LF', 5), ('CRLF', 2), ('CR', 1), ('mixed', 1)]),
         'mixseed': srng.randrange(1 << 30),
         'read_plan': io_plan(rng.sub('rio'), rng.sub('rio?').chance(0.5)),
